@@ -32,8 +32,9 @@ class Failure(object):
 class Report(object):
     """Collects the obligations of one property run."""
 
-    def __init__(self, prop):
+    def __init__(self, prop, prog=None):
         self.prop = prop
+        self.prog = prog            # enables reasoned suppressions (nfcsa/triage.py)
         self.obligations = {}       # rule -> [keys]
         self.failures = []
         self.suppressed = []        # (rule, key, reason)
@@ -58,6 +59,12 @@ class Report(object):
             self.samples.append(s)
 
     def fail(self, rule, key, loc, message, witness=None):
+        if self.prog is not None:
+            from . import triage
+            reason = triage.lookup(self.prog, self.prop, rule, key)
+            if reason is not None:
+                self.suppress(rule, key, reason)
+                return
         self.obligations.setdefault(rule, []).append(key)
         # the same obligation may be reached through several roots: report once
         for f in self.failures:
@@ -73,6 +80,8 @@ class Report(object):
         return cond
 
     def suppress(self, rule, key, reason):
+        if any(x['rule'] == rule and x['key'] == key for x in self.suppressed):
+            return
         self.obligations.setdefault(rule, []).append(key)
         self.suppressed.append({'rule': rule, 'key': key, 'reason': reason})
 
